@@ -49,9 +49,10 @@ pub(crate) fn pos_to_offset(input: &str, pos: Position) -> usize {
         let (_, line_end) = input.split_at(offset);
         if line_end.starts_with("\r\n") {
             offset += 2; // Windows
-        } else {
+        } else if line_end.starts_with('\n') {
             offset += 1; // Linux, Mac
         }
+        // Otherwise the line is the last one and has no line terminator: stay within the text.
     }
     if let Some(last_line) = input.lines().nth(pos.line as usize)
         && !last_line.is_empty()
@@ -59,7 +60,8 @@ pub(crate) fn pos_to_offset(input: &str, pos: Position) -> usize {
         if let Some((p, _)) = last_line.char_indices().nth(pos.character as usize) {
             offset += p
         } else {
-            offset += last_line.char_indices().last().unwrap().0 + 1
+            // Position is past the end of the line: clamp to the end of the line
+            offset += last_line.len()
         }
     }
     offset
